@@ -131,6 +131,8 @@ spec fn is_lower_bound(s: Seq<Ent>, k: Seq<u8>, p: int) -> bool {
 
 //@ extract sst/src/lib.rs | struct KeyRef
 //@ end
+//@ extract sst/src/lib.rs | struct KeyValueRef
+//@ end
 
 spec fn key_at(s: Seq<Ent>, p: int) -> Option<(Seq<u8>, u64)> { if 0 <= p < s.len() { Some((s[p].key, s[p].ts)) } else { None } }
 spec fn val_at(s: Seq<Ent>, p: int) -> Option<Seq<u8>> { if 0 <= p < s.len() { s[p].val } else { None } }
@@ -139,6 +141,15 @@ spec fn keyref_is(r: Option<KeyRef<'_>>, k: Option<(Seq<u8>, u64)>) -> bool {
 }
 spec fn slice_is(r: Option<&[u8]>, v: Option<Seq<u8>>) -> bool {
     match (r, v) { (Some(a), Some(b)) => a@ == b, (None, None) => true, _ => false }
+}
+
+// what Cursor::key_value() returns at position p of table s
+spec fn kvref_is(r: Option<KeyValueRef<'_>>, s: Seq<Ent>, p: int) -> bool {
+    if 0 <= p < s.len() {
+        r is Some && r->Some_0.key@ == s[p].key && r->Some_0.timestamp == s[p].ts
+            && (r->Some_0.value is Some) == (s[p].val is Some)
+            && (s[p].val is Some ==> r->Some_0.value->Some_0@ == s[p].val->Some_0)
+    } else { r is None }
 }
 
 trait Cursor {
@@ -228,6 +239,16 @@ trait Cursor {
 //@ post <<
         slice_is(r, self.val_spec()),
         self.wf() ==> slice_is(r, val_at(self.ents(), self.pos())),
+//@ >>
+//@ end
+
+//@ extract sst/src/lib.rs | trait Cursor :: fn key_value
+//@ ret r
+//@ pre <<
+        self.wf_base(),
+//@ >>
+//@ post <<
+        self.wf() ==> kvref_is(r, self.ents(), self.pos()),
 //@ >>
 //@ end
 }
